@@ -585,7 +585,12 @@ fn c05(r: &mut Rng, i: u64, p: &HashMap<String, String>) -> Vec<Value> {
     let t = regular_table(&mut g, nrows, ncols, spans, nest, false, &mut next, &mut cells, true, sparse);
     let (t, w) = if r.chance(1, 5) { cells.clear(); (pressure_table(r, &mut cells), r.range(6, 60)) }
                  else { (t, if r.chance(1, 2) { r.range(1, 30) } else { r.range(1, wmax(p, 100)) }) };
-    vec![json!({"id": id("c05", i), "runs": [run(&doc_html(&[t]), w, cfg("plain", vec![]), "string")]})]
+    // (layout options that must not disturb the box: a wrap limit above, at or below the column widths, padding)
+    let mut ops = vec![];
+    if r.chance(1, 6) { ops.push(json!(["max_wrap", r.range(1, 40)])); }
+    if r.chance(1, 8) { ops.push(json!(["pad"])); }
+    if r.chance(1, 10) { ops.push(json!(["min_wrap", r.range(0, 6)])); }
+    vec![json!({"id": id("c05", i), "runs": [run(&doc_html(&[t]), w, cfg("plain", ops), "string")]})]
 }
 /// C06: as C05 without nesting, every non-empty cell filled with copies of its own unique character.
 fn c06(r: &mut Rng, i: u64, p: &HashMap<String, String>) -> Vec<Value> {
@@ -597,7 +602,11 @@ fn c06(r: &mut Rng, i: u64, p: &HashMap<String, String>) -> Vec<Value> {
     let t = regular_table(&mut g, nrows, ncols, spans, false, true, &mut next, &mut cells, true, sparse);
     let (t, w) = if r.chance(1, 5) { cells.clear(); (pressure_table(r, &mut cells), r.range(6, 60)) }
                  else { (t, if r.chance(1, 2) { r.range(1, 30) } else { r.range(1, wmax(p, 100)) }) };
-    vec![json!({"id": id("c06", i), "meta": {"cells": cells}, "runs": [run(&doc_html(&[t]), w, cfg("plain", vec![]), "string")]})]
+    let mut ops = vec![];
+    if r.chance(1, 6) { ops.push(json!(["max_wrap", r.range(1, 40)])); }
+    if r.chance(1, 8) { ops.push(json!(["pad"])); }
+    if r.chance(1, 10) { ops.push(json!(["min_wrap", r.range(0, 6)])); }
+    vec![json!({"id": id("c06", i), "meta": {"cells": cells}, "runs": [run(&doc_html(&[t]), w, cfg("plain", ops), "string")]})]
 }
 
 /// C10: 1-2 documents, one configuration, a random valid history of one-shot and staged calls over a
